@@ -210,8 +210,11 @@ def write_unit(unit, fname, vacuity=False, blank=()):
             lines[bo - 1] = lines[bo - 1] + (' assert(false);' if f['kind'] == 'proof' else ' proof { assert(false); }')
             marks[bo] = f['name']
     path = os.path.join(BUILD, fname)
-    with open(path, 'w') as fh:
+    # written under a private name and moved into place: a check running side by side never reads a half-written unit
+    tmp_ = '%s.%d.tmp' % (path, os.getpid())
+    with open(tmp_, 'w') as fh:
         fh.write('\n'.join(lines) + '\n')
+    os.replace(tmp_, path)
     return path, marks
 
 
